@@ -740,6 +740,20 @@ Proof.
     injection Hs as <- <-. unfold DBInv, absm, vll in *. cbn [mts lv seqn ft ct rd fpend cpend msize walb mcl] in *.
     destruct (c2_inv _ _ _ _ _ _ HI) as [H1 H2].
     split; [exact H1|]. rewrite H2. split; [reflexivity|]. split; [exact I|reflexivity].
+
+  - (* C1F *) destruct st as [M ms wb ll sq fp f cp c mc r]. cbn in Hs.
+    assert (Hrun : forall n,
+              (let '(ocs, m) := compact table_size (d_comp cfg) mc ll in
+               match ocs with
+               | Some _ => Some (mkDb M ms wb ll sq fp f n CIdle m r, OComp false)
+               | None => None
+               end) = Some (st', o) ->
+              DBInv st' /\ absm st' = absm (mkDb M ms wb ll sq fp f cp c mc r) /\ rd st' = r).
+    { intros n Hr. destruct (compact table_size (d_comp cfg) mc ll) as [[cs|] m] eqn:Hcomp; [|discriminate]. injection Hr as <- <-.
+      unfold DBInv, absm, vll in *; cbn in *. split; [eapply c_idle_inv; [|exact HI]; discriminate|auto]. }
+    assert (Hres : DBInv st' /\ absm st' = absm (mkDb M ms wb ll sq fp f cp c mc r) /\ rd st' = r).
+    { destruct c as [| |cs]; [destruct cp as [|n]; [discriminate|]| |discriminate]; eapply Hrun; eauto. }
+    destruct Hres as (H1 & H2 & H3). rewrite H3. cbn. auto.
 Qed.
 
 Theorem run_refines cfg :
